@@ -45,7 +45,7 @@ TSaveOk == /\ IsEv("save") /\ Ev.outcome = "ok" /\ SaveEnd
                 /\ f.step = Ev.step /\ f.time = Ev.time /\ f.content = Ev.content
                 /\ f.hasrs = Ev.hasrs /\ f.rs = Ev.rs
 
-TSaveFault == /\ IsEv("save") /\ Ev.outcome \in {"KI", "Err"} /\ pc \in {"save", "final"}
+TSaveFault == /\ IsEv("save") /\ Ev.outcome \in {"KI", "Err", "KIR"} /\ pc \in {"save", "final"}
               /\ Fault(Ev.outcome, Ev.at) /\ i = Ev.step
 
 TUpdateOk == /\ IsEv("update") /\ Ev.outcome = "ok" /\ Update
@@ -53,7 +53,7 @@ TUpdateOk == /\ IsEv("update") /\ Ev.outcome = "ok" /\ Update
              /\ Ev.dt = (IF Saving THEN simdts'[Len(simdts')] ELSE tdts'[Len(tdts')])
              /\ applied' = Ev.content
 
-TUpdateFault == /\ IsEv("update") /\ Ev.outcome \in {"KI", "Err"} /\ pc = "update"
+TUpdateFault == /\ IsEv("update") /\ Ev.outcome \in {"KI", "Err", "KIR"} /\ pc = "update"
                 /\ Fault(Ev.outcome, Ev.at) /\ i = Ev.i
 
 \* faults outside the loop: while the context is being set up (pc = "run") or the solution assembled
